@@ -664,6 +664,10 @@ def _install():
 
     PROPERTIES["C09"]["rules"].append(cubic_mono_rule)
 
+    from .ld_rules import ld_clamp_rule
+
+    PROPERTIES["C01"]["rules"].append(ld_clamp_rule)
+    PROPERTIES["C03"]["rules"].append(ld_clamp_rule)
     if square_rule not in PROPERTIES["C01"]["rules"]:
         PROPERTIES["C01"]["rules"].append(square_rule)
 
